@@ -84,11 +84,31 @@ def run(prop, tier):
             nsamp += out["samples"]; total += out["n"]
             for (p, key, detail, tags) in out["findings"]:
                 v.violation(f"[{be}] {key}", detail, tags)
+    # auxiliary data against the constraint terms of the HFModel specification (every backend)
+    import hf
+    import random as _random
+    hres = hf.tlc_run("quick", sd)
+    if not hres.ok or not hres.cases_path:
+        raise Machinery("MC_HFModel (source of the constraint terms) did not run")
+    hl = [ln for ln in open(hres.cases_path) if '"cons":[{' in ln.replace(" ", "")]
+    _random.Random(sd).shuffle(hl)
+    naux = 0
+    for be, take in (("numpy", 160), ("pytorch", 60), ("jax", 40), ("tensorflow", 40)) if tier == "quick" else (("numpy", 1200), ("pytorch", 400), ("jax", 200), ("tensorflow", 200)):
+        use = hl[:take]
+        hl = hl[take:] + use
+        for out in run_chunks("toys_replay", "replay_aux_moments", [use[i::8] for i in range(8) if use[i::8]], backend=be, procs=8, kwargs={"seed": sd}):
+            if "machinery" in out:
+                raise Machinery(out["machinery"])
+            nsamp += out["samples"]; total += out["n"]; naux += out["aux_components"]
+            for (p, key, detail, tags) in out["findings"]:
+                v.violation(f"[{be}] {key}", detail, tags)
+    if naux == 0:
+        raise Machinery("C14: no auxiliary component was compared with its constraint term")
     v.sample(json.loads(elines[len(elines) // 2])); v.sample(tails[0])
     v.coverage.update(
         states=emp.distinct + hy.distinct, transitions=emp.generated + hy.generated,
         traces_validated_against_impl=len(accepted), hook_traces_rejected=len(rejected), toy_hypotests=hts, toys_for_tail_comparison=toys,
-        pseudo_datasets_sampled=nsamp, evaluations=total, distinct_nontrivial=nontriv,
+        pseudo_datasets_sampled=nsamp, auxiliary_components_compared_with_their_constraint_term=naux, evaluations=total, distinct_nontrivial=nontriv,
         rule=("Empirical.tla: all sample sequences of <= MaxSamples values over 4 levels x observed values inside, tied and outside the range; "
               "every state replayed on EmpiricalDistribution.pvalue (flat and column tensors, 2-4 backends); toy-based hypotests of the Hypotest.tla "
               "case set traced and validated by TLC (toys = make_pdf(conditional fit).sample re-generated under the same seed, exact); toy CLs+b/CLb on "
